@@ -383,6 +383,7 @@ impl<Leaf: MerkleLeaf, Root: MerkleRoot, Proof: MerkleProof> MerkleTree<Leaf, Ro
     #[must_use]
     fn check_hash_proof(hash: Hash, index: usize, root: &Root, proof: &Proof) -> bool {
         proof.as_ref().len() <= EMPTY_ROOTS.len()
+            && Self::index_within_width(index, proof)
             && *Self::derive_hash_root(hash, index, proof).as_hash() == *root.as_hash()
     }
 
@@ -404,6 +405,17 @@ impl<Leaf: MerkleLeaf, Root: MerkleRoot, Proof: MerkleProof> MerkleTree<Leaf, Ro
     fn check_hash_proof_last(hash: Hash, index: usize, root: &Root, proof: &Proof) -> bool {
         Self::derive_hash_root_last(hash, index, proof)
             .is_some_and(|derived| *derived.as_hash() == *root.as_hash())
+    }
+
+    /// Returns `true` iff `index` addresses a leaf of a tree as high as `proof` is long.
+    ///
+    /// Index bits above the proof length do not influence the derived root,
+    /// so without this check `index + k * 2^height` would alias `index`.
+    fn index_within_width(index: usize, proof: &Proof) -> bool {
+        u32::try_from(proof.as_ref().len())
+            .ok()
+            .and_then(|len| index.checked_shr(len))
+            .is_none_or(|rest| rest == 0)
     }
 
     /// Derives the root from an element in the tree and its proof.
@@ -434,7 +446,7 @@ impl<Leaf: MerkleLeaf, Root: MerkleRoot, Proof: MerkleProof> MerkleTree<Leaf, Ro
     /// - a right-sibling entry is not the canonical empty-subtree root.
     #[must_use]
     fn derive_hash_root_last(hash: Hash, index: usize, proof: &Proof) -> Option<Root> {
-        if proof.as_ref().len() > EMPTY_ROOTS.len() {
+        if proof.as_ref().len() > EMPTY_ROOTS.len() || !Self::index_within_width(index, proof) {
             return None;
         }
         let mut i = index;
